@@ -29,6 +29,8 @@ def new_result(name):
 
 
 def _init_worker(modname, tier, seed, path):
+    import warnings
+    warnings.filterwarnings('ignore')
     for p_ in path:
         if p_ not in sys.path:
             sys.path.append(p_)
